@@ -182,6 +182,9 @@ type WritersCheck struct {
 	Props []string
 	Field string // Type.field
 	Funcs []string
+	// Closers: instead of stores, every close() of the channel held in the field (and every use that
+	// lets the channel value travel to where it could be closed) is inside the listed functions
+	Closers bool
 }
 
 type TableCheck struct {
@@ -367,6 +370,24 @@ func (cs *Contracts) LoadContractFile(path, pkg string) error {
 			}
 			cs.Writers = append(cs.Writers, wc)
 			return nil
+		case "closers":
+			// closers props=C09 Type.field func func ... : only the listed functions close the channel in this field
+			fs := strings.Fields(rest)
+			wc := &WritersCheck{Pkg: pkg, Closers: true}
+			for _, a := range fs {
+				if strings.HasPrefix(a, "props=") {
+					wc.Props = strings.Split(a[6:], ",")
+				} else if wc.Field == "" {
+					wc.Field = a
+				} else {
+					wc.Funcs = append(wc.Funcs, a)
+				}
+			}
+			if wc.Field == "" || len(wc.Funcs) == 0 {
+				return fail("closers needs Type.field and at least one function")
+			}
+			cs.Writers = append(cs.Writers, wc)
+			return nil
 		case "table":
 			// table <kind> <name> args... ; props via following "prop" line not supported: inline "props=C14"
 			fs := strings.Fields(rest)
@@ -530,7 +551,16 @@ func (cs *Contracts) LoadContractFile(path, pkg string) error {
 				E    Expr
 			}{strings.TrimSpace(rest[:i]), e})
 		case "established":
-			// established <writer func> <Type.field> @label <expr>
+			// established [@before:callee|@after:callee] <writer func[,func]> <Type.field> @label <expr>
+			eat := ""
+			if strings.HasPrefix(rest, "@before:") || strings.HasPrefix(rest, "@after:") {
+				w2, r2 := splitWord(rest)
+				eat = w2[1:]
+				rest = r2
+			} else if strings.HasPrefix(rest, "@ret ") {
+				eat = "ret"
+				rest = strings.TrimSpace(rest[5:])
+			}
 			fs := strings.SplitN(rest, " ", 3)
 			if len(fs) < 3 {
 				return fail("established needs writer, field and expression")
@@ -539,7 +569,7 @@ func (cs *Contracts) LoadContractFile(path, pkg string) error {
 			if err != nil {
 				return err
 			}
-			cur.Hints = append(cur.Hints, Hint{Kind: "established", Loop: -1, Writer: fs[0], Field: fs[1], Label: c.Label, E: c.E, Src: fs[2]})
+			cur.Hints = append(cur.Hints, Hint{Kind: "established", Loop: -1, At: eat, Writer: fs[0], Field: fs[1], Label: c.Label, E: c.E, Src: fs[2]})
 		case "unfold", "use", "assume":
 			at := ""
 			if strings.HasPrefix(rest, "@ret ") {
